@@ -47,7 +47,74 @@ func main() {
 		fmt.Fprintln(os.Stderr, "usage: odbcheck -property Cxx [-tier quick|thorough] [-repo dir]")
 		os.Exit(2)
 	}
+	if *prop == "ALL" {
+		// self-test mode: one load and one run of every rule, then every property's verdict
+		// (never writes evidence; the registered commands run one property each)
+		os.Exit(runAll(*tier, *repo, *verif, *list))
+	}
 	os.Exit(runProperty(*prop, *tier, *repo, *verif, !*noEvidence, *list, nil))
+}
+
+var preloaded *Ctx
+var preloadedObls []*Obligation
+
+func runAll(tier, repo, verif string, list bool) int {
+	overlay := controlOverlay(repo)
+	c, err := load(repo, tier, "", overlay)
+	if err != nil && len(overlay) > 0 && strings.Contains(err.Error(), "verif_ctl") {
+		c, err = load(repo, tier, "", nil)
+		if err == nil {
+			c.note("controls skipped: overlay did not type-check against this tree")
+		}
+	} else if err == nil {
+		c.WithCtl = len(overlay) > 0
+	}
+	if err != nil {
+		fmt.Printf("analysis failed (analysis-error): %v\nVIOLATION property=ALL replay=- kind=analysis-error\n", err)
+		return 1
+	}
+	var rerr error
+	func() {
+		defer func() {
+			if r := recover(); r != nil {
+				rerr = fmt.Errorf("analyser panic: %v\n%s", r, debug.Stack())
+			}
+		}()
+		ran := map[string]bool{}
+		var ids []string
+		for id := range ruleGroups {
+			ids = append(ids, id)
+		}
+		sort.Strings(ids)
+		for _, id := range ids {
+			g := ruleGroups[id]
+			name := fmt.Sprintf("%p", g)
+			if ran[name] {
+				continue
+			}
+			ran[name] = true
+			g(c)
+		}
+	}()
+	if rerr != nil {
+		fmt.Printf("analysis failed (analysis-error): %v\nVIOLATION property=ALL replay=- kind=analysis-error\n", rerr)
+		return 1
+	}
+	preloaded, preloadedObls = c, c.Obls
+	var props []string
+	for id := range propSpecs {
+		if id != "DBG" {
+			props = append(props, id)
+		}
+	}
+	sort.Strings(props)
+	rc := 0
+	for _, id := range props {
+		if r := runProperty(id, tier, repo, verif, false, list, nil); r != 0 {
+			rc = 1
+		}
+	}
+	return rc
 }
 
 func isFlagSet(name string) bool {
@@ -75,6 +142,16 @@ func analyse(spec *propSpec, tier, repo, goarch string) (c *Ctx, err error) {
 			err = fmt.Errorf("analyser panic: %v\n%s", r, debug.Stack())
 		}
 	}()
+	if preloaded != nil && goarch == "" {
+		cc := *preloaded
+		cc.Obls = nil
+		for _, o := range preloadedObls {
+			oc := *o
+			cc.Obls = append(cc.Obls, &oc)
+		}
+		c = &cc
+		return filterObls(c, spec), nil
+	}
 	overlay := controlOverlay(repo)
 	c, err = load(repo, tier, goarch, overlay)
 	if err != nil && len(overlay) > 0 && strings.Contains(err.Error(), "verif_ctl") {
@@ -102,7 +179,11 @@ func analyse(spec *propSpec, tier, repo, goarch string) (c *Ctx, err error) {
 		ran[name] = true
 		g(c)
 	}
-	// keep only the obligations of the rules this property uses (and its filters)
+	return filterObls(c, spec), nil
+}
+
+// filterObls keeps only the obligations of the rules this property uses (and its filters).
+func filterObls(c *Ctx, spec *propSpec) *Ctx {
 	var keep []*Obligation
 	for _, o := range c.Obls {
 		for _, r := range spec.Rules {
@@ -128,7 +209,7 @@ func analyse(spec *propSpec, tier, repo, goarch string) (c *Ctx, err error) {
 	}
 	c.Obls = uniq
 	sortObls(c, c.Obls)
-	return c, nil
+	return c
 }
 
 func runProperty(id, tier, repo, verif string, writeEvidence, list bool, only *replayFile) int {
